@@ -601,8 +601,8 @@ func init() {
 	mutant("drain-loop-stops-at-any-empty-field", "block-remainder-decoded", "serverConn.go", "		if len(b) == 0 && hf.Empty() {\n			// Ended in a dynamic table size update: no field.", "		if hf.Empty() {\n			// Ended in a dynamic table size update: no field.")
 	mutant("drain-loop-always-at-block-start", "block-remainder-decoded", "serverConn.go", "		b, err = sc.dec.nextField(hf, fields == 0, fields, b)", "		b, err = sc.dec.nextField(hf, true, fields, b)")
 	mutant("rejected-field-not-counted", "block-remainder-decoded", "serverConn.go", "sc.skipFields(b, strm.blockFields+1, fr.Flags().Has(FlagEndHeaders))", "sc.skipFields(b, strm.blockFields, fr.Flags().Has(FlagEndHeaders))")
-	mutant("rejection-drops-the-cut-field", "block-remainder-decoded", "serverConn.go", "	strm.previousHeaderBytes = append(strm.previousHeaderBytes[:0], carry...)\n	strm.blockFields = fields\n\n	return reason", "	_ = carry\n	strm.blockFields = fields\n\n	return reason")
-	mutant("rejection-swallowed", "block-remainder-decoded", "serverConn.go", "	strm.blockFields = fields\n\n	return reason", "	strm.blockFields = fields\n\n	return err")
+	mutant("rejection-drops-the-cut-field", "block-remainder-decoded", "serverConn.go", "	strm.previousHeaderBytes = append(strm.previousHeaderBytes[:0], carry...)\n	strm.blockFields = fields\n", "	strm.blockFields = fields\n")
+	mutant("rejection-swallowed", "block-remainder-decoded", "serverConn.go", "		return err\n	}\n\n	return reason\n}", "		return err\n	}\n\n	return err\n}")
 	mutant("open-block-read-from-end-stream", "block-remainder-decoded", "serverConn.go", "	strm.blockOpen = !fr.Flags().Has(FlagEndHeaders)", "	strm.blockOpen = !fr.Flags().Has(FlagEndStream)")
 	mutant("open-block-only-recorded-on-headers", "block-remainder-decoded", "serverConn.go", "	if fr.Type() != FrameContinuation {\n		strm.blockFields = 0\n	}\n\n	strm.blockOpen = !fr.Flags().Has(FlagEndHeaders)", "	if fr.Type() != FrameContinuation {\n		strm.blockFields = 0\n		strm.blockOpen = !fr.Flags().Has(FlagEndHeaders)\n	}")
 	mutant("closed-stream-takes-its-block-with-it", "block-remainder-decoded", "serverConn.go", "		if strm.blockOpen {\n			sc.discard.open = true", "		if strm.blockOpen && sc.debug {\n			sc.discard.open = true")
@@ -693,4 +693,14 @@ func init() {
 	mutant("client-encoder-size-from-the-bare-frame", "settings-presence-guard", "conn.go", "	atomic.StoreUint32(&c.encTableSize, c.serverS.HeaderTableSize())", "	atomic.StoreUint32(&c.encTableSize, st.HeaderTableSize())")
 	mutant("table-size-zero-left-out-again", "settings-encode-defaults", "settings.go", "	st.rawSettings = append(st.rawSettings,\n		byte(HeaderTableSize>>8), byte(HeaderTableSize),\n		byte(st.tableSize>>24), byte(st.tableSize>>16),\n		byte(st.tableSize>>8), byte(st.tableSize),\n	)\n", "	if st.tableSize != 0 {\n		st.rawSettings = append(st.rawSettings,\n			byte(HeaderTableSize>>8), byte(HeaderTableSize),\n			byte(st.tableSize>>24), byte(st.tableSize>>16),\n			byte(st.tableSize>>8), byte(st.tableSize),\n		)\n	}\n")
 	mutant("push-octet-set-when-disabled", "settings-codec-table", "settings.go", "	var push byte\n	if st.enablePush {\n		push = 1\n	}", "	var push byte\n	if !st.enablePush {\n		push = 1\n	}")
+}
+
+func init() {
+	mutant("carried-bytes-bound-disabled", "buffer-append-bounded", "serverConn.go", "	if sc.maxHeaderList > 0 && n > 4*sc.maxHeaderList {", "	if sc.maxHeaderList > 0 && n > 4*sc.maxHeaderList && sc.debug {")
+	mutant("carried-bytes-bound-refuses-legal-fields", "buffer-append-bounded", "serverConn.go", "	if sc.maxHeaderList > 0 && n > 4*sc.maxHeaderList {", "	if sc.maxHeaderList > 0 && n > sc.maxHeaderList/4 {")
+	mutant("carried-bytes-bound-without-a-limit", "buffer-append-bounded", "serverConn.go", "	if sc.maxHeaderList > 0 && n > 4*sc.maxHeaderList {", "	if n > 4*sc.maxHeaderList {")
+	mutant("carried-bytes-not-checked-in-the-request-path", "buffer-append-bounded", "serverConn.go", "				err = sc.checkCarried(len(pb))\n", "				err = nil\n")
+	mutant("carried-bytes-not-checked-after-a-rejection", "buffer-append-bounded", "serverConn.go", "	if err := sc.checkCarried(len(carry)); err != nil {\n		return err\n	}\n\n	return reason", "	return reason")
+	mutant("carried-bytes-not-checked-when-discarding", "buffer-append-bounded", "serverConn.go", "		if err == nil {\n			err = sc.checkCarried(len(carry))\n		}\n", "")
+	mutant("oversized-field-is-a-stream-error", "buffer-append-bounded", "serverConn.go", "		return NewGoAwayError(EnhanceYourCalm, \"header field exceeds the maximum size\")", "		return NewResetStreamError(EnhanceYourCalm, \"header field exceeds the maximum size\")")
 }
